@@ -22,6 +22,7 @@ AB = "graph::Graph::add_build"
 
 
 def run(ck, ctx):
+    C.adapter_census(ck, ctx, "all-outputs", ("graph::", "load::"))
     F = ctx.F
     C.single_writer(ck, ctx, "input-writer", "graph::File", "input", [AB])
     b = ck.need("fn " + AB, F.body(AB))
